@@ -13,6 +13,14 @@ pub enum FloatMode {
     Bits,
     /// identical bits, or both NaN
     NanEq,
+    /// identical bits; an *expected* BCF-reserved NaN (0x7f800001..=0x7f800007) may come back as
+    /// any NaN or as missing (the statement exempts the reserved NaNs from bit preservation);
+    /// every other element must be intact
+    BitsReservedLenient,
+}
+
+pub fn is_reserved_nan(b: u32) -> bool {
+    (0x7f80_0001..=0x7f80_0007).contains(&b)
 }
 
 #[derive(Clone, Debug)]
@@ -23,6 +31,8 @@ pub struct Diff {
     pub kind: &'static str,
     /// how: value-differs / missing-vs-value / length-differs / keys-differ / count-differs
     pub how: &'static str,
+    /// key as used by the generator's shape table: "info:XS1", "sample:YIA", "qual", …
+    pub key: String,
     pub detail: String,
 }
 
@@ -33,7 +43,9 @@ impl Diff {
 }
 
 fn feq(a: u32, b: u32, m: FloatMode) -> bool {
-    a == b || (m == FloatMode::NanEq && f32::from_bits(a).is_nan() && f32::from_bits(b).is_nan())
+    a == b
+        || (m == FloatMode::NanEq && f32::from_bits(a).is_nan() && f32::from_bits(b).is_nan())
+        || (m == FloatMode::BitsReservedLenient && is_reserved_nan(a) && f32::from_bits(b).is_nan())
 }
 
 pub fn val_eq(a: &Val, b: &Val, m: FloatMode) -> bool {
@@ -44,6 +56,7 @@ pub fn val_eq(a: &Val, b: &Val, m: FloatMode) -> bool {
                 && x.iter().zip(y).all(|(p, q)| match (p, q) {
                     (None, None) => true,
                     (Some(p), Some(q)) => feq(*p, *q, m),
+                    (Some(p), None) => m == FloatMode::BitsReservedLenient && is_reserved_nan(*p),
                     _ => false,
                 })
         }
@@ -86,13 +99,14 @@ pub fn opt_val_eq(a: &Option<Val>, b: &Option<Val>, m: FloatMode) -> bool {
     match (norm(a), norm(b)) {
         (None, None) => true,
         (Some(x), Some(y)) => val_eq(x, y, m),
+        (Some(Val::Float(p)), None) => m == FloatMode::BitsReservedLenient && is_reserved_nan(*p),
         _ => false,
     }
 }
 
 /// `exp` is the expected (input) record, `got` what came back.
 pub fn diff_rec(exp: &Rec, got: &Rec, m: FloatMode) -> Option<Diff> {
-    let d = |field, kind, how, detail: String| Some(Diff { field, kind, how, detail });
+    let d = |field: &'static str, kind, how, detail: String| Some(Diff { field, kind, how, key: field.to_string(), detail });
     if exp.chrom != got.chrom {
         return d("chrom", "-", "value-differs", format!("{:?} vs {:?}", exp.chrom, got.chrom));
     }
@@ -133,12 +147,13 @@ pub fn diff_rec(exp: &Rec, got: &Rec, m: FloatMode) -> Option<Diff> {
     for ((k, a), (_, b)) in exp.info.iter().zip(&got.info) {
         if !opt_val_eq(a, b, m) {
             let kind = a.as_ref().or(b.as_ref()).map(Val::kind).unwrap_or("-");
-            return d(
-                "info",
+            return Some(Diff {
+                field: "info",
                 kind,
-                how(norm(a), norm(b)),
-                format!("{k}: {} vs {}", show_val(a.as_ref()), show_val(b.as_ref())),
-            );
+                how: how(norm(a), norm(b)),
+                key: format!("info:{k}"),
+                detail: format!("{k}: {} vs {}", show_val(a.as_ref()), show_val(b.as_ref())),
+            });
         }
     }
     if exp.format != got.format {
@@ -154,17 +169,14 @@ pub fn diff_rec(exp: &Rec, got: &Rec, m: FloatMode) -> Option<Diff> {
             let y = b.get(j).cloned().flatten();
             if !opt_val_eq(&x, &y, m) {
                 let kind = x.as_ref().or(y.as_ref()).map(Val::kind).unwrap_or("-");
-                return d(
-                    "sample",
+                let kname = exp.format.get(j).map(String::as_str).unwrap_or("?");
+                return Some(Diff {
+                    field: "sample",
                     kind,
-                    how(norm(&x), norm(&y)),
-                    format!(
-                        "sample {i} key {}: {} vs {}",
-                        exp.format.get(j).map(String::as_str).unwrap_or("?"),
-                        show_val(x.as_ref()),
-                        show_val(y.as_ref())
-                    ),
-                );
+                    how: how(norm(&x), norm(&y)),
+                    key: format!("sample:{kname}"),
+                    detail: format!("sample {i} key {kname}: {} vs {}", show_val(x.as_ref()), show_val(y.as_ref())),
+                });
             }
         }
     }
